@@ -15,7 +15,7 @@ from .c01 import shape_sig, compare_channels
 
 PROP = 'C02'
 LEVEL = 'exploration'
-N = {'quick': 15000, 'thorough': 1500000}
+N = {'quick': 9000, 'thorough': 1500000}
 BUDGET = {'quick': 45, 'thorough': 900}
 RULE = ('seeded segment histories (2-12 segments, 1-4 channels) whose per-object header encodings are drawn from '
         '{full, matches-previous, no-data, unlisted} with kTocNewObjList / kTocMetaData on or off, re-ordered '
@@ -25,13 +25,14 @@ RULE = ('seeded segment histories (2-12 segments, 1-4 channels) whose per-object
         'one forbidden encoding and require an error. distinct = sequence of (flags, header choices); non-trivial '
         '= some object used an inherited encoding (matches-previous, no-data, unlisted carry-over or no metadata)')
 EXPECTED_PROBES = ['t:same-after-none', 't:same-after-absent', 't:meta-less-after-flip', 'reordered-same-set',
-                   'forbidden:same-unseen', 'forbidden:first-no-meta', 'forbidden:type-change', 't:unlisted-carry', 'long-history']
+                   'forbidden:same-unseen', 'forbidden:first-no-meta', 'forbidden:type-change', 't:unlisted-carry', 'long-history', 'long-metadata-less-run']
 
 
 def opts(tier):
     o = gen.Opts()
     o.max_segments = 12
-    o.many_segments_p = 0.012        # 100+ segments: anything keyed or batched by a block size
+    o.many_segments_p = 0.008        # 100+ segments: anything keyed or batched by a block size
+    o.long_run_p = 0.008             # 100+ consecutive metadata-less segments
     o.max_channels = 4
     o.p_no_meta = 0.25
     o.p_keep_list = 0.6
@@ -282,10 +283,19 @@ def read_all(st, name, w, raw_ts, lazy):
     try:
         out = {'groups': [g.name for g in tf.groups()],
                'channels': [c.path for g in tf.groups() for c in g.channels()], 'data': {}, 'len': {}}
+        out['win'] = {}
         for g in tf.groups():
             for c in g.channels():
-                out['len'][c.path] = len(c)
+                n = len(c)
+                out['len'][c.path] = n
                 out['data'][c.path] = ops.norm(c[:])
+                # a few windows and indices: lazily they go through the per-channel offset index
+                wins = []
+                for fn in (lambda: c.read_data(n // 2, 3), lambda: c[n // 3:], lambda: c[n - 1] if n else None,
+                           lambda: c.read_data(max(0, n - 2), None)):
+                    r, exc, _eo = ops.try_op(lambda: ops.norm(fn()))
+                    wins.append(r if exc is None else ('exc', exc))
+                out['win'][c.path] = wins
         return tf, out
     finally:
         if lazy:
@@ -329,6 +339,12 @@ def execute(case):
         ks = list(range(1, nseg + 1))
         if nseg > 15:
             res.probe('long-history')
+            run = 0
+            for sg in spec['segments']:
+                run = run + 1 if not sg.get('meta', True) else 0
+                if run >= 99:
+                    res.probe('long-metadata-less-run')
+                    break
             ks = sorted(set([1, 2, 3, nseg // 2, nseg - 1, nseg] + list(range(17, nseg, 29))))     # a tailing reader that polls rarely
         for k in ks:
             pre = dict(spec)
@@ -360,6 +376,22 @@ def execute(case):
                         for v in vs:
                             v.detail = 'after %d segment(s): %s' % (k, v.detail)
                         res.violations += vs
+            for lazy in (False, True):
+                a = reads.get((lazy, 'inh.tdms'))
+                if a is not None:
+                    for p_, wins in a['win'].items():
+                        d = a['data'].get(p_)
+                        if d is None or d[0] not in ('arr', 'strs', 'rawts'):
+                            continue
+                        n = _lazy.full_len(d)
+                        exp = [_lazy.take_norm(d, range(min(n // 2, n), min(n // 2 + 3, n))), _lazy.take_norm(d, range(n // 3, n)),
+                               (_lazy.scalar_of(d, n - 1) if n else ('none',)), _lazy.take_norm(d, range(max(0, n - 2), n))]
+                        for wi, (g_, e_) in enumerate(zip(wins, exp)):
+                            if g_ != e_ and not (g_[0] in ('arr', 'strs', 'rawts') and _lazy.full_len(g_) == 0 and _lazy.full_len(e_) == 0):
+                                res.violations.append(V('C02.window', 'after %d segment(s), %s: window %d of %s reads %s, the full read '
+                                                        'gives %s there' % (k, 'lazy' if lazy else 'eager', wi, p_, _lazy._short(g_),
+                                                                            _lazy._short(e_)), lazy=lazy))
+                                break
             for lazy in (False, True):
                 a, b = reads.get((lazy, 'inh.tdms')), reads.get((lazy, 'exp.tdms'))
                 if a is not None and b is not None and a != b:
